@@ -19,6 +19,11 @@
   shape of the comparator (direct / calls / multi / loop / iface / named); the verdict says why the
   order is total on the elements that can occur, or why ties do not matter.
 
+  Kind `policy` = anchor on a function whose POLICY other rows rely on: class = hash of its persistent
+  state (variables declared before its service loop) and of the headers of its scan loops.  Today:
+  bondgo's allocator `Var_assigner` (lowest free id, no memory of releases), on which the `.insens`
+  verdict of the scope-release walks depends.
+
   Rows of sites that no longer exist MUST BE REMOVED once the fix is in /repo: a leftover pre-fix row
   (`.finding`, class without `sorted`) would silently accept a regression to the pre-fix loop.
 
@@ -126,6 +131,7 @@ def rows : List Row := [
   ⟨0x45c661b8f2a89d4d, "ordered|pkg/procbuilder/evolutionary.go|(*Machine).MelInit|Allopcodes|0", ["append", "calls"], .offpath "evolutionary tools (mel), not a build path"⟩,
   ⟨0x7110862d7cd8f9df, "ordered|pkg/procbuilder/evolutionary.go|(*Machine).MelInit|Allopcodes|1", ["accum", "calls"], .offpath "evolutionary tools (mel), not a build path"⟩,
   ⟨0x7a5abe6923dfa07f, "ordered|pkg/procbuilder/machine.go|(*Machine_json).Dejsoner|Allopcodes|0", ["accum", "calls"], .thm .firstMatchUnique⟩,
+  ⟨0x03b619de5ebb6d07, "policy|pkg/bondgo/runinfo.go|(*BondgoRuninfo).Var_assigner|state+scans|0", ["hcf9205778dce5fb6"], .insens "POLICY ANCHOR. bondgo register / memory / io / channel allocator: persistent state = busylist, busychan, busyio (what is in use, no record of releases), every scan is `for i := 0; i < MAX_…; i++` = lowest free id. The rows of the release walks over bgfunct.Vars and bg.Clean.Vars rely on exactly this; the class is the hash of state{…} loops{…} printed by `c07 json` (field note): if it changes, re-review those rows before re-keying this one"⟩,
   ⟨0x0dd23e0d0dd9ca5c, "rand|cmd/bondmachine/bondmachine.go|init|math/rand.Seed|0", [], .insens "seeds math/rand for the simulator and the evolutionary tools; no build path draws from it"⟩,
   ⟨0xc47184300f840b3a, "rand|pkg/procbuilder/arch.go|(*Arch).Program_generate|math/rand.Intn|0", [], .offpath "random program generation for pkg/procbuilder/evolutionary.go, by design"⟩,
   ⟨0xb69c9b7d37652484, "rand|pkg/procbuilder/conproc.go|RandStringBytes|math/rand.Intn|0", [], .offpath "helper without callers in the build tools"⟩,
@@ -274,12 +280,12 @@ def rows : List Row := [
   ⟨0x3b4c200f144274ef, "range|pkg/bondgo/converter.go|(*BondgoCheck).Create_Udpbond_Cluster|otherres.Map.Assoc|1", ["accum"], .insens "computes existence flags (connected / multi) over all entries"⟩,
   ⟨0x40f771f0051b7928, "range|pkg/bondgo/converter.go|(*BondgoCheck).Create_Udpbond_Cluster|res.Map.Assoc|0", ["append", "early", "keyed"], .unproved "cluster peers inputs/outputs are appended in map order of the io map; not exercised by the corpus (needs -use-etherbond / -use-udpbond)"⟩,
   ⟨0xb51dce4ca8586608, "range|pkg/bondgo/converter.go|Assembly_2_Processor|bgmain.Program|0", ["send"], .insens "one ROM-size notification per routine to the usage monitor, which keeps a maximum per processor"⟩,
-  ⟨0xf6c4480ba6e185ba, "range|pkg/bondgo/expr.go|(*BondgoCheck).Expr_eval|bgfunct.Vars|0", ["calls", "early", "output", "send"], .insens "releases every variable of the scope; release order does not reach the emitted text"⟩,
+  ⟨0xf6c4480ba6e185ba, "range|pkg/bondgo/expr.go|(*BondgoCheck).Expr_eval|bgfunct.Vars|0", ["calls", "early", "output", "send"], .insens "releases every variable of the scope. Order insensitive ONLY because the allocator answers a request with the lowest free register and keeps no memory of releases (row policy|pkg/bondgo/runinfo.go|(*BondgoRuninfo).Var_assigner): under a policy that depends on the order of earlier releases (last-released-first, free lists) this walk leaks map order into the register numbers of the emitted assembly"⟩,
   ⟨0xf5d9ab90b99753bb, "range|pkg/bondgo/functcell.go|(*BondgoFunctions).String|fn.Functions|0", ["calls", "concat"], .debugOnly⟩,
   ⟨0xece72facaaa94f00, "range|pkg/bondgo/requirements.go|(*BondgoRequirements).Dump_Requirements|reqmnt.Chanr|0", ["calls", "concat"], .unproved "-show-requirements text lists processors / io / channels in map order (diagnostic output on stdout)"⟩,
   ⟨0x36960c7ab9eeaf88, "range|pkg/bondgo/requirements.go|(*BondgoRequirements).Dump_Requirements|reqmnt.IOr|0", ["calls", "concat"], .unproved "-show-requirements text lists processors / io / channels in map order (diagnostic output on stdout)"⟩,
   ⟨0x67d152c059e4b778, "range|pkg/bondgo/requirements.go|(*BondgoRequirements).Dump_Requirements|reqmnt.Procr|0", ["calls", "concat"], .unproved "-show-requirements text lists processors / io / channels in map order (diagnostic output on stdout)"⟩,
-  ⟨0x4408ca4dadd0dec3, "range|pkg/bondgo/visiter.go|(*BondgoCheck).Visit|bg.Clean.Vars|0", ["calls", "early", "output", "send"], .insens "releases every variable of the scope; release order does not reach the emitted text"⟩,
+  ⟨0x4408ca4dadd0dec3, "range|pkg/bondgo/visiter.go|(*BondgoCheck).Visit|bg.Clean.Vars|0", ["calls", "early", "output", "send"], .insens "releases every variable of the scope. Order insensitive ONLY because the allocator answers a request with the lowest free register and keeps no memory of releases (row policy|pkg/bondgo/runinfo.go|(*BondgoRuninfo).Var_assigner): under a policy that depends on the order of earlier releases (last-released-first, free lists) this walk leaks map order into the register numbers of the emitted assembly"⟩,
   ⟨0xb7f805fd813d9087, "range|pkg/bondmachine/bmapi.go|(*Bondmachine).WriteBMAPI|apiFiles|0", ["calls", "early"], .insens "one output file per key of a literal table: distinct paths; an error aborts the tool"⟩,
   ⟨0x5748b5d5be3ee5e4, "range|pkg/bondmachine/bmapi.go|(*Bondmachine).WriteBMAPI|apiFiles|1", ["calls", "early"], .insens "one output file per key of a literal table: distinct paths; an error aborts the tool"⟩,
   ⟨0x4e35cb0ba595c175, "range|pkg/bondmachine/bmapi.go|(*Bondmachine).WriteBMAPI|auxFiles|0", ["calls", "early"], .insens "one output file per key of a literal table: distinct paths; an error aborts the tool"⟩,
